@@ -151,7 +151,7 @@ func genAnyField(r *vh.Rand, name string) uField {
 		}
 		u.Container = vh.Pick(r, []string{"array", "array", "map"})
 		// an optional array / map compiles to a proto3-optional repeated field (known finding)
-		u.Optional = !u.Required && r.Chance(4)
+		u.Optional = !u.Required && r.Chance(2)
 	}
 	return u
 }
@@ -207,7 +207,7 @@ func genEntityOpt(r *vh.Rand, second bool, forcedName string) *entityDecl {
 	// metadata / data / status / event next to the flattened keys in State and Event)
 	ks := nameSet{}
 	nKeys := r.Range(1, 4)
-	reservedKey := !second && r.Chance(7)
+	reservedKey := !second && r.Chance(5)
 	for i := 0; i < nKeys; i++ {
 		name := ks.fresh(func() string {
 			if reservedKey && i == 0 {
@@ -283,7 +283,7 @@ func genEntityOpt(r *vh.Rand, second bool, forcedName string) *entityDecl {
 	es := nameSet{}
 	for k := r.Range(0, 3); k > 0; k-- {
 		name := es.fresh(func() string {
-			if !second && r.Chance(3) {
+			if !second && r.Chance(1) {
 				// its oneof option "type" sits next to the proto oneof "type" of the wrapper
 				return "Type"
 			}
@@ -693,7 +693,7 @@ func runC17(cfg *vh.Config) error {
 		decls = append(decls, &fileDecl{Ents: []*entityDecl{d}})
 		kinds = append(kinds, "fixed-name")
 	}
-	nGen := cfg.Scale(130, 4000)
+	nGen := cfg.Scale(130, 3000)
 	for i := 0; i < nGen; i++ {
 		d := genEntity(r)
 		if r.Chance(20) {
@@ -890,7 +890,7 @@ func runC17(cfg *vh.Config) error {
 		Type:   "strcase_case",
 		Check:  "strcase_check",
 	}
-	scf.Terms = strcaseStream(cfg, r.Fork("strcase"), res, cfg.Scale(800, 20000), &caseNo, distinct)
+	scf.Terms = strcaseStream(cfg, r.Fork("strcase"), res, cfg.Scale(800, 15000), &caseNo, distinct)
 	// entity names used above are strcase inputs too
 	scShards, err := scf.WriteShards(cfg.Out, "sc", strcaseShard)
 	if err != nil {
@@ -1244,6 +1244,98 @@ func oracleC17(res *vh.Result, caseNo int, d *entityDecl, dump *dumped, in any) 
 		if len(getP) != len(primaries)+len(shardOnly) {
 			fail("C17 Get path has parameters that are neither primary nor shard keys", "path parameters of Get", ql[1].Strs[3])
 		}
+	}
+	// the Get and Events requests hold every path key; a primary key is required there too
+	if query != nil && len(query.Method) == 3 {
+		for _, mi := range []int{0, 2} {
+			req := strings.TrimPrefix(query.Method[mi].GetInputType(), ".")
+			have := map[string]line{}
+			for _, l := range lines[req] {
+				if l.Tag == 2 {
+					have[l.Strs[0]] = l
+				}
+			}
+			for _, k := range d.Keys {
+				if !k.Key || !(k.Primary || k.Shard) {
+					continue
+				}
+				l, ok := have[strcase.ToSnake(k.Name)]
+				if !ok {
+					fail("C17 path key missing from the Get/Events request", "primary-key fields ... appear ... as the path parameters of Get and Events", req+"."+k.Name)
+				} else if k.Primary && l.Nums[3] != 1 {
+					fail("C17 primary key not required in the Get/Events request", "primary-key fields are required", req+"."+k.Name)
+				}
+			}
+		}
+	}
+	// every declared command service, with the declared methods
+	ci := 0
+	for _, s := range svc.Service {
+		sl := svcLines(svc.GetPackage(), 1, s)
+		if sl[0].Nums[1] != 2 {
+			continue
+		}
+		if ci < len(d.Commands) {
+			var want, got []string
+			for _, m := range d.Commands[ci].Methods {
+				want = append(want, m.Name+":"+fmt.Sprint(m.Verb))
+			}
+			for _, ml := range sl[1:] {
+				got = append(got, ml.Strs[0]+":"+fmt.Sprint(ml.Nums[0]))
+			}
+			if strings.Join(want, ",") != strings.Join(got, ",") {
+				fail("C17 command service methods differ from the declaration", "every declared command service", strings.Join(got, ","))
+			}
+		}
+		ci++
+	}
+	// the nested event messages hold the declared fields, in order
+	if et := findMsg(main, X+"EventType"); et != nil && len(et.NestedType) == len(d.Events) {
+		for i, ev := range d.Events {
+			var want, got []string
+			for _, f := range ev.Fields {
+				want = append(want, strcase.ToSnake(f.Name))
+			}
+			for _, f := range et.NestedType[i].Field {
+				got = append(got, f.GetName())
+			}
+			if strings.Join(want, ",") != strings.Join(got, ",") {
+				fail("C17 nested event message does not hold the declared fields", "0..n events with arbitrary fields / a nested message of that name", ev.Name+": "+strings.Join(got, ","))
+			}
+		}
+	}
+	// status values carry the prefix SCREAMING_SNAKE(entity)_STATUS_
+	if statusEnum != nil {
+		prefix := strcase.ToScreamingSnake(d.Name) + "_STATUS_"
+		for _, v := range statusEnum.Value {
+			if !strings.HasPrefix(v.GetName(), prefix) {
+				fail("C17 status value without the entity's status prefix", "statuses ... named from the entity name", v.GetName())
+			}
+		}
+	}
+	// each upsert message holds the summary's fields after the upsert metadata
+	upsertMsgs := 0
+	for _, s := range topic.Service {
+		sl := svcLines(topic.GetPackage(), 2, s)
+		if sl[0].Nums[1] != 3 || sl[0].Nums[2] != 3 || len(sl) != 2 {
+			continue
+		}
+		if upsertMsgs < len(d.Summaries) {
+			var got []string
+			for _, l := range lines[sl[1].Strs[1]] {
+				if l.Tag == 2 {
+					got = append(got, l.Strs[0])
+				}
+			}
+			want := []string{"upsert"}
+			for _, f := range d.Summaries[upsertMsgs].Fields {
+				want = append(want, strcase.ToSnake(f.Name))
+			}
+			if strings.Join(want, ",") != strings.Join(got, ",") {
+				fail("C17 upsert message does not hold upsert metadata + the summary's fields", "one upsert topic per summary", sl[1].Strs[1]+": "+strings.Join(got, ","))
+			}
+		}
+		upsertMsgs++
 	}
 	// topics
 	nUpsert, nEvent := 0, 0
